@@ -216,8 +216,8 @@ MUTANTS = [
          desc="the defect repaired by fix 9a342bb: Vector([None, None]).fillna(0) raises ValueError"),
     dict(id="fillna-tests-falsy", module=_V, old="		out = tuple(value if x is None else x for x in self._underlying)",
          new="		out = tuple(value if not x else x for x in self._underlying)", rules=["d.na-triple"]),
-    dict(id="max-filter-truthy", module=_V, old="		non_none = [v for v in self._underlying if v is not None]\n		return max(non_none) if non_none else None",
-         new="		non_none = list(filter(None, self._underlying))\n		return max(non_none) if non_none else None", rules=["b.reductions", "c.siblings"]),
+    dict(id="max-filter-truthy", module=_V, old="		non_none = [v for v in self._underlying if v is not None]\n		return _extreme(non_none, max) if non_none else None",
+         new="		non_none = list(filter(None, self._underlying))\n		return _extreme(non_none, max) if non_none else None", rules=["b.reductions", "c.siblings"]),
     dict(id="window-mean-len-vals", module=_T,
          old="				def fn(vals):\n					clean = [v for v in vals if v is not None]\n					return sum(clean) / len(clean) if clean else None",
          new="				def fn(vals):\n					clean = [v for v in vals if v is not None]\n					return sum(clean) / len(vals) if clean else None",
@@ -229,8 +229,8 @@ MUTANTS = [
          old="		return Vector(tuple(elem for elem in self._underlying if elem is not None),\n			dtype=self._dtype.with_nullable(False) if self._dtype is not None else None,\n			name=self._name, as_row=self._display_as_row)",
          new="		return Vector(tuple(elem for elem in self._underlying if elem),\n			dtype=self._dtype.with_nullable(False) if self._dtype is not None else None,\n			name=self._name, as_row=self._display_as_row)", rules=["d.na-triple"]),
     dict(id="aggregate-min-empty-zero", module=_T,
-         old="					clean = [v for v in vals if v is not None]\n					return min(clean) if clean else None",
-         new="					clean = [v for v in vals if v is not None]\n					return min(clean) if clean else 0", rules=["c.aggregators"], count=2, nth=0),
-    dict(id="twin-filter-lambda", module=_V, twin=True, old="		non_none = [v for v in self._underlying if v is not None]\n		return max(non_none) if non_none else None",
-         new="		kept = list(filter(lambda item: item is not None, self._underlying))\n		return max(kept) if kept else None"),
+         old="					clean = [v for v in vals if v is not None]\n					return _extreme(clean, min) if clean else None",
+         new="					clean = [v for v in vals if v is not None]\n					return _extreme(clean, min) if clean else 0", rules=["c.aggregators"], count=2, nth=0),
+    dict(id="twin-filter-lambda", module=_V, twin=True, old="		non_none = [v for v in self._underlying if v is not None]\n		return _extreme(non_none, max) if non_none else None",
+         new="		kept = list(filter(lambda item: item is not None, self._underlying))\n		return _extreme(kept, max) if kept else None"),
 ]
